@@ -1,5 +1,5 @@
 """ListSegmentPlan table of crates/libs/sciparse/src/scion/segment/list_segment_plan.rs
--> Gen/NetworkPlan.v   (src, need, emit, missing, re are injected by tools/gen.py)
+-> Gen/NetworkPlan.v   (src, need, expect, emit, missing, re are injected by tools/gen.py)
 
 Rows: (context, src kind, dst kind, up, core, down) with context 0 = same ISD / single core,
 1 = same ISD / multiple cores, 2 = cross ISD; src kind 0 Core, 1 NonCore; dst kind 0 Core,
@@ -20,10 +20,13 @@ def generate():
     for nm in ("none", "core", "up", "down", "up_core", "core_down", "up_down", "up_core_down"):
         if nm not in ctor:
             missing.append(f"{rel}: plan constructor {nm}")
-    need(t, r"if self\.up\.is_none\(\) && self\.core\.is_none\(\) && self\.down\.is_none\(\) \{\s*return Err\(ListSegmentPlanError::NoSegmentLookup\);",
-         "validate: empty plan is an error", rel)
-    need(t, r"let same_isd = src\.isd\(\) == dst\.isd\(\);\s*match same_isd \{\s*true => Self::plan_same_isd\(src, src_cores, dst\),\s*false => Self::plan_cross_isd\(src, dst\),",
-         "new: dispatch on same ISD", rel)
+    # mirrored statements (the harness runs the real ListSegmentPlan::new): soft
+    expect(t, r"self\.up\.is_none\(\)\s*&&\s*self\.core\.is_none\(\)\s*&&\s*self\.down\.is_none\(\)", "validate: empty plan is an error", rel)
+    expect(t, r"ListSegmentPlanError::NoSegmentLookup", "validate: NoSegmentLookup", rel)
+    # the meaning of the table's context column: hard, but tolerant of the control-flow form
+    need(t, r"src\.isd\(\)\s*==\s*dst\.isd\(\)", "new: dispatch on same ISD", rel)
+    need(t, r"Self::plan_same_isd\(\s*src\s*,\s*src_cores\s*,\s*dst\s*\)", "new: same ISD -> plan_same_isd", rel)
+    need(t, r"Self::plan_cross_isd\(\s*src\s*,\s*dst\s*\)", "new: cross ISD -> plan_cross_isd", rel)
 
     def arms(block, what, expect):
         rows = []
